@@ -11,7 +11,9 @@ WIREF = [(n, {k: v + ["-faults"] for k, v in a.items()}) for (n, a) in WIRE]
 SRV_TRUST = ["in-memory MongoDB wire-protocol server (harness/fakemongo) standing in for mongod: unique _id, ordered insertMany, upsert, find with sort — assumed to match MongoDB for the operators orda uses",
              "in-process MQTT broker (harness/fakemqtt) recording publishes"]
 PROPS = {
-    "C06": {"slices": WIRE, "trusted": SRV_TRUST, "assumptions": ["handlers of one datatype run one at a time (the lock, C12)", "no storage fault during the request (C08)"]},
+    "C05": {"slices": WIRE, "trusted": SRV_TRUST, "assumptions": ["the composition of the proved ingredients over Net.v is not yet a theorem (C05_statement_list is a definition)"]},
+    "C07": {"slices": WIREF, "trusted": SRV_TRUST, "assumptions": ["faults exercised: duplicated request, dropped response + retry; delayed (stale) responses are not driven", "C07_statement_list is a definition, not yet a theorem"]},
+    "C06": {"slices": WIRE + WIREF, "trusted": SRV_TRUST, "assumptions": ["handlers of one datatype run one at a time (the lock, C12)", "no storage fault during the request (C08)"]},
     "C13": {"slices": WIRE, "trusted": SRV_TRUST, "assumptions": ["handlers of one datatype run one at a time"]},
     "C16": {"slices": WIRE, "trusted": SRV_TRUST, "assumptions": ["liveness of the Go code (no hang, no crash) is tested, not proved"]},
     "C17": {"slices": WIRE, "trusted": SRV_TRUST, "assumptions": ["ResetCollection is not modelled yet"]},
